@@ -728,22 +728,12 @@ impl Interface {
                 neighbor_addr = Some(response.ip_repr().dst_addr());
 
                 // The fragmenter holds a single packet. While fragments of a previous packet
-                // are still unsent, a packet that needs fragmentation stays in its socket.
-                #[cfg(feature = "proto-ipv4-fragmentation")]
-                if matches!(response.ip_repr(), IpRepr::Ipv4(_))
-                    && response.ip_repr().buffer_len() > inner.caps.ip_mtu()
-                    && !self.fragmenter.finished()
-                {
-                    return Err(EgressError::FragmenterBusy);
-                }
-
-                // The same fragmenter holds the 6LoWPAN packet that is being sent in fragments:
-                // the next packet of any socket waits until its last fragment is out.
-                #[cfg(all(
-                    feature = "medium-ieee802154",
-                    feature = "proto-sixlowpan-fragmentation"
-                ))]
-                if matches!(inner.caps.medium, Medium::Ieee802154) && !self.fragmenter.finished() {
+                // are still unsent, the next packet of any socket stays in its socket: one that
+                // needs fragmentation would be dropped, and one that does not would overtake the
+                // remaining fragments on the wire and reach the peer before the datagram that
+                // was queued ahead of it.
+                #[cfg(feature = "_proto-fragmentation")]
+                if !self.fragmenter.finished() {
                     return Err(EgressError::FragmenterBusy);
                 }
 
